@@ -50,7 +50,7 @@ func (h *ChannelsHandler) ServeHTTP(resp http.ResponseWriter, req *http.Request)
 					ConnID:    conn.GetID(),
 					ChannelID: chID,
 					Channel:   fmt.Sprintf("%s (%d)", conn.GetRemoteAddr().String(), chID),
-					Vhost:     conn.GetVirtualHost().GetName(),
+					Vhost:     vhostName(conn),
 					User:      conn.GetUsername(),
 					Qos:       fmt.Sprintf("%d / %d", ch.GetQos().PrefetchCount(), ch.GetQos().PrefetchSize()),
 					Counters: map[string]*metrics.TrackItem{
